@@ -150,7 +150,7 @@ def job_insert(name, tier, tour, path, props):
                     st, conn = TS.valid_tour(net, got)
                     J.prove(pc, z3.And(z3.BoolVal(st), conn), 'insert_path: result is a valid tour (depot..depot, consecutive nodes connectable)', lambda m: mk(m, what='result of insert_path is not a valid tour', clause_sig=' validity'))
                 if e - s > 0: J.covers.add('insert: conflict removed')
-                if any(TS.nowhere(net, x) for x in got): J.covers.add('insert: overflow depot in result')
+        if any(TS.nowhere(net, x) for x in got): J.covers.add('insert: overflow depot in result')
         if 'C09' in props and ok_struct:
             for clause, f in aggregates_ok(ex, net, nt, got):
                 J.prove(pc, f, 'insert_path: ' + clause, lambda m, clause=clause: mk(m, what='after insert_path: ' + clause + ' violated', clause_sig=' ' + clause.split(' = ')[0]))
@@ -314,7 +314,7 @@ def tour_shapes(tier):
         out.append(dict(acts=list(a)))
         if 'M' not in a: out.append(dict(acts=list(a), dummy=True))
     out.append(dict(acts=['S'], sd='overflow', ed='real')); out.append(dict(acts=['S'], sd='real', ed='overflow'))
-    if tier == 'quick': out.append(dict(acts=['M', 'S']))
+    if tier == 'quick': out.append(dict(acts=['M', 'S'])); out.append(dict(acts=['S', 'S', 'S'], remove_only=True))
     if tier == 'thorough':
         out.append(dict(acts=['S', 'S'], sd='overflow', ed='overflow')); out.append(dict(acts=['S', 'M'], sd='overflow', ed='real'))
     return out
@@ -332,12 +332,12 @@ def all_jobs(tier, seed, props):
     js = []
     for t in tour_shapes(tier):
         ts = shape_sig(t)
-        for p in path_shapes(tier, t):
+        for p in ([] if t.get('remove_only') else path_shapes(tier, t)):
             if len(t['acts']) + len(p['acts']) > (3 if tier == 'quick' else 5): continue
             js.append(dict(name='insert %s' % shape_sig(t, p), func='job_insert', kwargs=dict(tier=tier, tour=t, path=p, props=props)))
         if 'C12' in props or len(t['acts']) >= 2:
             js.append(dict(name='remove %s' % ts, func='job_remove', kwargs=dict(tier=tier, tour=t, props=props)))
-        if not t.get('dummy'):
+        if not t.get('dummy') and not t.get('remove_only'):
             js.append(dict(name='new %s' % ts, func='job_new', kwargs=dict(tier=tier, tour=t, props=props)))
     if 'C09' in props:
         for t in ([dict(acts=['S']), dict(acts=['S'], sd='overflow', ed='real'), dict(acts=['S'], sd='real', ed='overflow')] + ([dict(acts=['S', 'M']), dict(acts=['S', 'S'], sd='overflow', ed='overflow')] if tier == 'thorough' else [])):
